@@ -1764,7 +1764,7 @@ static void DecodeMOVEC(Word Code) {
                     && (RightAdrResult.ShortMode != 2)) {
                     DAsmCode[0] = 0x050020 + (RightAdrResult.Val << 8) + Reg3 + Reg1;
                     CodeLen     = 1;
-                } else {
+                } else if (RightAdrResult.Type != ModNone) {
                     DAsmCode[0] = 0x054020 + (RightAdrResult.Mode << 8) + Reg3 + Reg1;
                     DAsmCode[1] = RightAdrResult.Val;
                     CodeLen     = 1 + RightAdrResult.Cnt;
@@ -1790,7 +1790,7 @@ static void DecodeMOVEC(Word Code) {
                         && (LeftAdrResult.Val <= 255)) {
                     DAsmCode[0] = 0x0500a0 + (LeftAdrResult.Val << 8) + Reg1;
                     CodeLen     = 1;
-                } else {
+                } else if (LeftAdrResult.Type != ModNone) {
                     DAsmCode[0] = 0x05c020 + (LeftAdrResult.Mode << 8) + Reg3 + Reg1;
                     DAsmCode[1] = LeftAdrResult.Val;
                     CodeLen     = 1 + LeftAdrResult.Cnt;
